@@ -1,9 +1,32 @@
-import ShpanVerif.Util.Parse
-/- Driver handler for C04 (stub: replaced when the property's model lands). -/
+import ShpanVerif.Drive.PipeCommon
+/-
+Driver handler for C04: fault-free single materialisations of ordered pipelines vs the list model.
+Spec predicate (on the observation): terminal succeeded and delivered exactly `Spec.eval` of the pipeline
+(its prefix of length n under take:n), whenever `Spec.eval` is defined (preconditions hold).
+-/
 namespace ShpanVerif.Drive.C04
+open ShpanVerif.Util ShpanVerif.Model.Pipe ShpanVerif.Drive.PipeCommon ShpanVerif
 
-/-- returns (model output, spec verdict on the observation, reason) -/
-def handle (_c _obs : String) : String × Bool × String :=
-  ("unimplemented", false, "no model yet")
+def specRun (p : Pipe) (r : Run) (o : ObsRun) : Bool × String :=
+  match r.fault, Spec.eval p with
+  | none, some l =>
+    let want := match r.take with
+      | none => l
+      | some n => if n ≤ 0 then [] else l.take n.toNat
+    if o.ok && o.delivered == fmtVs want then (true, "")
+    else (false, s!"want ok {fmtVs want}")
+  | _, _ => (true, "")
+
+def handle (c obs : String) : String × Bool × String :=
+  match parseCase c with
+  | none => ("bad-case", false, "unparsable case")
+  | some (p, rs) =>
+    let model := modelText p rs
+    match parseObs obs, rs with
+    | some [o], [r] =>
+      let (ok, why) := specRun p r o
+      (model, ok, why)
+    | some _, _ => (model, true, "")   -- histories are C18's business
+    | none, _ => (model, false, "unparsable observation")
 
 end ShpanVerif.Drive.C04
